@@ -154,6 +154,7 @@ pub struct RealEnum {
 fn read_with<E: ZvtParser + Send>(sh: crate::sim::Sh, stream: &[u8], n: usize, show: fn(E) -> String) -> Vec<(Option<Result<String, String>>, usize)> {
     use crate::sim::*;
     let s = Scripted::new(sh, stream.to_vec(), Chunking::Deviations);
+    s.st.borrow_mut().eof_at = Some(stream.len());
     let mut tr = io::PacketTransport { source: s.clone() };
     let mut out = vec![];
     for _ in 0..n {
